@@ -31,6 +31,29 @@ fn umad_replay() {
     let (a, d, e) = (envf("UMAD_A", 0.5), envf("UMAD_D", 0.5), envf("UMAD_E", 0.25));
     let ctor = std::env::var("UMAD_CTOR").unwrap_or_else(|_| "new".into());
     let l: usize = std::env::var("UMAD_L").ok().and_then(|s| s.parse().ok()).unwrap_or(2);
+    if std::env::var("UMAD_DETERMINISM").map(|s| s == "1").unwrap_or(false) {
+        // two runs from equal generator states must give equal children and leave equal generator states
+        let mut differ = 0;
+        for seed in 0..512u64 {
+            let run = |seed: u64| {
+                let gen = NewGenes(Cell::new(0));
+                let umad = match ctor.as_str() {
+                    "new_with_empty_rate" => Umad::new_with_empty_rate(a, e, d, gen),
+                    "new_without_empty" => Umad::new_without_empty(a, d, gen),
+                    _ => Umad::new(a, d, gen),
+                };
+                let mut rng = StdRng::seed_from_u64(seed);
+                let child = umad.mutate(Vector { genes: (0..l as i64).collect::<Vec<i64>>() }, &mut rng).unwrap().genes;
+                (child, rng.random::<u64>())
+            };
+            if run(seed) != run(seed) {
+                differ += 1;
+            }
+        }
+        println!("ctor {ctor} L {l}: {differ} of 512 seeds give different results / generator states in two runs from the same seed");
+        assert!(differ == 0, "UMAD is not a function of its arguments and the supplied generator");
+        return;
+    }
     let runs = 40000u64;
     let mut bad: Vec<String> = Vec::new();
     let mut child_counts: HashMap<Vec<i64>, u64> = HashMap::new();
